@@ -264,6 +264,9 @@ impl Prop for C14Prop {
         })
     }
     fn known(&self, v: &Viol) -> Option<&'static str> {
+        if let Some(k) = crate::props::c15::list_location_overshoot(v) {
+            return Some(k);
+        }
         let text = v.case.get("text").or_else(|| v.case.get("source")).and_then(|t| t.as_str())?;
         let no_result = v.sig == "timeout" || v.sig.starts_with("abort:");
         if no_result && has_macro_mentioning_macro(text) {
